@@ -8,7 +8,7 @@ LEVEL_TEXT = ("Bounded verification by symbolic execution of the real CircularRe
               "length up to the bound, z3 shows that no letters, no rotation amounts k,k2 in Z, no feature coordinates/strands "
               "(1-3 parts, simple/compound/origin-spanning/whole-length) and no per-letter values violate any clause "
               "(sequence, composition, identity, inverse, feature denotation, tracks, metadata). A bounded claim, not a proof.")
-LEVEL_NOTE = ("Bounds: n<=14 quick / n<=24 thorough, 1 feature with <=2 (quick) / <=3 (thorough) parts, one track; k unbounded. "
+LEVEL_NOTE = ("Bounds: n<=24 quick / n<=40 thorough (k case-split by residue above n=10), 1 feature with <=2 (quick) / <=3 (thorough) parts, one track; k unbounded. "
               "Trusted: z3, CPython, symx models of Bio.Seq/SeqRecord/SeqFeature (validated differentially against Biopython 1.88 "
               "on every run; counterexamples are replayed on the real library before being reported).")
 TECHNIQUE = "bounded symbolic execution of the real Python source (symx re-execution engine) with z3 deciding every branch and assertion; length case-split; replay on the real stack"
@@ -27,7 +27,7 @@ ASSUMPTIONS = [
 
 
 def bounds(tier):
-    return dict(n_max=tier_pick(tier, 14, 24), parts_max=tier_pick(tier, 2, 3), k="unbounded integer",
+    return dict(n_max=tier_pick(tier, 24, 40), parts_max=tier_pick(tier, 2, 3), k="unbounded integer",
                 features=1, tracks=1)
 
 
@@ -47,6 +47,19 @@ def _make(ctx, n, nparts, ftype, strand):
     return r, parts, quals, track, ann, rec
 
 
+def _rotation_amount(ctx, name, n):
+    """an arbitrary integer; for larger n it is written k = rho + q*n with the residue rho case-split (one path
+    family per residue) and q an unbounded integer, which keeps every index concrete"""
+    if n <= SPLIT_FROM:
+        return ctx.mk.int(name)
+    rho = ctx.mk.pick(name + "_rho", n)
+    q = ctx.mk.int(name + "_q")
+    return rho + q * n
+
+
+SPLIT_FROM = 10
+
+
 def _same_denotation(ctx, old_parts, new_parts, shift, n, label):
     """every new part has the old length and strand and starts at old start + shift (mod n)"""
     ctx.require(len(new_parts) == len(old_parts), label + ":part-count")
@@ -64,7 +77,7 @@ def ob_rotate(ctx):
     n = P["n"]
     st = ctx.stack
     r, parts, quals, track, ann, rec = _make(ctx, n, P["parts"], P["ftype"], P["strand"])
-    k = ctx.mk.int("k")
+    k = _rotation_amount(ctx, "k", n)
     out = rec >> k
     ctx.observe("out", out)
     ctx.require(isinstance(out, st.record.CircularRecord), "type")
@@ -188,11 +201,11 @@ def ob_nofeature_location(ctx):
 
 def obligations(tier, seed):
     obs = []
-    nmax = tier_pick(tier, 14, 24)
+    nmax = tier_pick(tier, 24, 40)
     pmax = tier_pick(tier, 2, 3)
     for n in range(1, nmax + 1):
         for parts in range(1, pmax + 1):
-            if parts == 3 and n > 12:
+            if parts == 3 and n > 20:
                 continue
             for ftype in ("misc_feature", "source"):
                 if ftype == "source" and parts > 1 and tier == "quick" and n % 2:
